@@ -18,7 +18,7 @@ from vf.xmodel import Schema, Rop, Shadow, Bound
 
 SHARDS = {'quick': 16, 'thorough': 64}
 TIMEOUT = {'quick': 1500, 'thorough': 7200}
-MUST_HIT = ['Call.same-named-operations-of-two-classes', 'Call.name-differs-in-case-only-function', 'Call.name-differs-in-case-only-external-entity', 'Call.python-function', 'Call.python-bridge', 'Call.python-class-operation',
+MUST_HIT = ['Call.nothing-after-an-activation-that-returned-a-value', 'Call.same-named-operations-of-two-classes', 'Call.name-differs-in-case-only-function', 'Call.name-differs-in-case-only-external-entity', 'Call.python-function', 'Call.python-bridge', 'Call.python-class-operation',
             'Call.derived-attribute-early-bare-return', 'Scope.local-named-like-parameter', 'Call.argument-order-observable', 'Call.operand-order-observable', 'Call.loop-condition-with-effect-left-through-break', 'Call.earlier-component-rechecked', 'Call.builtin-external-entity', 'Call.legacy-keyword-bridge', 'Call.legacy-keyword-transform', 'Call.python-instance-operation', 'Call.derived-attribute', 'Call.derived-attribute-outside-state', 'Call.enumerator', 'Call.constant',
             'Call.nested', 'Call.recursive', 'Call.return-inside-while-body', 'Call.return-inside-for-each-body', 'Call.bare-return', 'Call.no-return', 'Call.in-where-clause',
             'Call.in-loop-condition', 'Scope.caller-variable-kept', 'State.compared']
@@ -62,6 +62,9 @@ class Mismatch(Exception):
         self.what = what
 
 
+MAYBE = [0]
+
+
 class Elem(object):
     '''a callable model element'''
 
@@ -74,6 +77,7 @@ class Elem(object):
         self.body = None          # list of statement nodes
         self.text = ''
         self.recursive = False
+        self.maybe = False        # the valued return sits behind a condition on param.n: some activations return nothing
         self.pure = True          # no instance creation / attribute write, calls only pure elements
 
     @property
@@ -186,6 +190,12 @@ class ModelGen(object):
             t.body = [oalsem.return_(oalsem.bin_('+', oalsem.attr(oalsem.self_(), 'der'), oalsem.lit(1000)))]
             t.text = om.render(om.body(t.body), self.render_rng, case=self.case)
             self.twin = t
+        # callables that deliver a value in some activations and nothing in others (last in rank: no body calls them,
+        # so no expression has to cope with nothing); they are invoked several times in a row from Python
+        for k_, nm, ty, own in (('f', 'maybe_fn', INT, None), ('b', 'maybe_brg', STR, 'EX')):
+            me = Elem(k_, nm, ty, [('n', INT)], own)
+            me.maybe = True
+            self.elems.append(me)
         for i, e in enumerate(self.elems):
             if e.body is None:
                 e.body = self.body(e, i)
@@ -212,6 +222,10 @@ class ModelGen(object):
                                          oalsem.return_(None)], [], None),
                              oalsem.assign(oalsem.attr(oalsem.self_(), 'der'), expr)]
         self.der_text = om.render(om.body(self.der_body), self.render_rng, case=self.case)
+
+    def before(self, rank):
+        '''the elements a body of this rank may call'''
+        return [x for x in self.elems[:rank] if not x.maybe]
 
     def twin_call(self, stmts, locals_):
         '''an instance of the other class is created and its same-named instance operation invoked'''
@@ -256,7 +270,7 @@ class ModelGen(object):
         k = r.random()
         locals_ = locals_ or {}
         if depth > 0 and k < 0.35:
-            cands = [e for e in self.elems[:rank] if e.ret == ty and e.kind != 'iop'
+            cands = [e for e in self.before(rank) if e.ret == ty and e.kind != 'iop'
                      and (e.pure or not self.pure_only)]
             if cands:
                 c = r.choice(cands)
@@ -313,13 +327,13 @@ class ModelGen(object):
         has_n = any(pn == 'n' for pn, _ in e.params)
         default = {INT: oalsem.lit(1), STR: oalsem.lit('z'), BOOL: oalsem.lit(True)}
         # bounded recursion on the decreasing integer parameter (self or mutual)
-        if has_n and e.ret is not None and e.kind != 'iop' and r.random() < 0.5:
+        if has_n and e.ret is not None and e.kind != 'iop' and not e.maybe and r.random() < 0.5:
             e.recursive = True
             guard = oalsem.if_(oalsem.bin_('<=', oalsem.param('n'), oalsem.lit(0)),
                                [oalsem.return_(self.expr(e.ret, e, rank, 1, locals_))])
             stmts.append(guard)
             partner = e
-            mutual = [x for x in self.elems[:rank] if x.recursive and x.ret == e.ret and x.kind != 'iop'
+            mutual = [x for x in self.before(rank) if x.recursive and x.ret == e.ret and x.kind != 'iop'
                       and any(pn == 'n' for pn, _ in x.params)]
             if mutual and r.random() < 0.4:
                 partner = r.choice(mutual)
@@ -333,7 +347,7 @@ class ModelGen(object):
             locals_[v] = e.ret
         if self.impure_logic and r.random() < 0.6:
             # a deciding left operand and a right operand with an effect
-            eff = [x for x in self.elems[:rank] if x.name == 'effect_fn']
+            eff = [x for x in self.before(rank) if x.name == 'effect_fn']
             if eff:
                 op = r.choice(('and', 'or'))
                 left = oalsem.lit(op == 'or') if r.random() < 0.7 else self.expr(BOOL, e, rank, 1, locals_)
@@ -348,8 +362,8 @@ class ModelGen(object):
                 stmts.append(oalsem.assign(oalsem.var(pn), self.expr(pt, e, rank, 1, locals_)))
                 locals_[pn] = pt
         if e.kind == 'iop' and r.random() < 0.6:
-            bump = [x for x in self.elems[:rank] if x.name == 'bump_all']
-            pair = [x for x in self.elems[:rank] if x.name == 'pair']
+            bump = [x for x in self.before(rank) if x.name == 'bump_all']
+            pair = [x for x in self.before(rank) if x.name == 'pair']
             if bump and pair:
                 ARG_ORDER[0] += 1
                 v = self.fresh()
@@ -360,7 +374,7 @@ class ModelGen(object):
         if r.random() < 0.25:
             # a loop condition with an effect, and a loop that is left through break: the condition is evaluated once
             # per iteration that starts, and not again after the break
-            bump = [x for x in self.elems[:rank] if x.name == 'bump_all']
+            bump = [x for x in self.before(rank) if x.name == 'bump_all']
             if bump:
                 w = 'w%d' % rank
                 stmts.append(oalsem.assign(oalsem.var(w), oalsem.lit(0)))
@@ -374,7 +388,7 @@ class ModelGen(object):
         if e.kind == 'iop' and r.random() < 0.4:
             # the operands of an operator are evaluated from left to right as well: self.N <op> bump_all() reads the
             # attribute as it was before bump_all changed it
-            bump = [x for x in self.elems[:rank] if x.name == 'bump_all']
+            bump = [x for x in self.before(rank) if x.name == 'bump_all']
             if bump:
                 v = self.fresh()
                 if v not in locals_ or locals_[v] == INT:
@@ -396,7 +410,7 @@ class ModelGen(object):
                 locals_[v] = ty
             elif k < 0.65:
                 # call as a statement
-                cands = [x for x in self.elems[:rank] if x.kind != 'iop']
+                cands = [x for x in self.before(rank) if x.kind != 'iop']
                 if cands:
                     c = r.choice(cands)
                     node = call_node(c, self.args(c, e, rank, 1, locals_=locals_))
@@ -410,7 +424,7 @@ class ModelGen(object):
                 # create an instance, set attributes, call an instance operation on it
                 stmts.append(oalsem.create('k', 'K'))
                 stmts.append(oalsem.assign(oalsem.attr(oalsem.var('k'), 'N'), self.expr(INT, e, rank, 1, locals_)))
-                iops = [x for x in self.elems[:rank] if x.kind == 'iop']
+                iops = [x for x in self.before(rank) if x.kind == 'iop']
                 if iops:
                     c = r.choice(iops)
                     twin_first = r.random() < 0.5
@@ -431,7 +445,7 @@ class ModelGen(object):
                         self.twin_call(stmts, locals_)
             elif k < 0.9:
                 # a call inside a where clause
-                cands = [x for x in self.elems[:rank] if x.ret == INT and x.kind != 'iop' and x.pure
+                cands = [x for x in self.before(rank) if x.ret == INT and x.kind != 'iop' and x.pure
                          and [p for p in x.params] == [('n', INT)]]
                 if cands:
                     c = r.choice(cands)
@@ -441,7 +455,7 @@ class ModelGen(object):
                     stmts.append(oalsem.select_from(r.choice(('any', 'many')), 'sel%d' % rank, 'K', where))
             else:
                 # a call inside a loop condition
-                cands = [x for x in self.elems[:rank] if x.ret == INT and x.kind != 'iop' and x.pure
+                cands = [x for x in self.before(rank) if x.ret == INT and x.kind != 'iop' and x.pure
                          and [p for p in x.params] == [('n', INT)]]
                 if cands:
                     c = r.choice(cands)
@@ -485,6 +499,12 @@ class ModelGen(object):
             elif k < 0.5:
                 stmts.append(oalsem.if_(oalsem.lit(True), [oalsem.return_(None)]))
                 stmts.append(oalsem.assign(oalsem.var('unreached'), oalsem.lit(1)))
+        elif e.maybe:
+            MAYBE[0] += 1
+            stmts.append(oalsem.if_(oalsem.bin_('>', oalsem.param('n'), oalsem.lit(1)),
+                                    [oalsem.return_(self.expr(e.ret, e, rank, 2, locals_))]))
+            if r.random() < 0.5:
+                stmts.append(oalsem.if_(oalsem.bin_('==', oalsem.param('n'), oalsem.lit(1)), [oalsem.return_(None)]))
         else:
             stmts.append(oalsem.return_(self.expr(e.ret, e, rank, 2, locals_)))
         return stmts
@@ -656,13 +676,20 @@ def run_case(ctx, rng):
         if got != v or type(got) is not type(v):
             raise Mismatch('constant/value', 'constant %s reads %r, modelled %r' % (n, got, v))
     # invoke every element from Python
-    order_ = list(range(len(gen.elems)))
+    order_ = [(i, None) for i in range(len(gen.elems)) if not gen.elems[i].maybe]
     rng.shuffle(order_)
-    for idx in order_:
+    for i in range(len(gen.elems)):
+        if gen.elems[i].maybe:
+            # several activations in a row: a value, nothing, a value, nothing through a bare return (or none)
+            at = rng.randint(0, len(order_))
+            order_[at:at] = [(i, n_) for n_ in rng.choice(((3, 0, 2, 1), (2, 1, 3, 0), (0, 3, 1, 2)))]
+    for idx, forced_n in order_:
         e = gen.elems[idx]
         kwargs = {}
         for pn, pt in e.params:
             kwargs[pn] = {INT: rng.randint(0, 3), STR: rng.choice(('', 'q', 'rs')), BOOL: rng.random() < 0.5}[pt]
+        if forced_n is not None:
+            kwargs['n'] = forced_n
         target = None
         if e.kind == 'iop':
             live = [h for h in shadow.extent['K']]
@@ -711,6 +738,8 @@ def run_case(ctx, rng):
         if got != exp or (isinstance(exp, bool) != isinstance(got, bool)):
             raise Mismatch('invocation/return-value', '%s returned %r, its body specifies %r\n%s'
                            % (desc, got, exp, e.text))
+        if e.maybe and exp is None:
+            ctx.hit('Call.nothing-after-an-activation-that-returned-a-value')
         if cr.max_depth > 1:
             ctx.hit('Call.nested')
         if e.recursive and kwargs.get('n', 0) > 0:
